@@ -404,7 +404,7 @@ func cmdRun(prop string, o runOpts) int {
 		Progress:    o.progress,
 		Machine: symgo.Config{
 			MaxSteps: 20_000_000, MaxDecisions: 20000, MaxConcrete: 64, SolverKind: o.solver, SolverTimeMs: 20000,
-			WantModel: true, TrackFuncs: true, Known: knownIDs, Tier: o.tier,
+			WantModel: true, ModelEvery: 50, TrackFuncs: true, Known: knownIDs, Tier: o.tier,
 		},
 	}
 	if o.minutes > 0 {
@@ -481,6 +481,7 @@ func cmdRun(prop string, o runOpts) int {
 		}
 	}
 	ev.setFuncs(funcs, ld, modRoot)
+	symgo.DumpProfile()
 
 	// ---- native replay: violations + validation samples
 	var cases []replayCase
